@@ -191,6 +191,18 @@ impl World {
                     Err(_) => return false,
                 }
             }
+            // a raw peer on another loopback address (127.0.0.2): its datagrams arrive on 127.0.0.1 but come
+            // from elsewhere, so "the address the datagram arrived on" and "the sender" differ
+            "Q" if rest.is_empty() && !self.v6 => {
+                let sock = match UdpSocket::bind("127.0.0.2:0") {
+                    Ok(s) => s,
+                    Err(_) => return false,
+                };
+                sock.set_nonblocking(true).unwrap();
+                let addr = sock.local_addr().unwrap();
+                self.tags.insert("other-source-ip");
+                self.socks.push(Sock::R { sock: Some(sock), addr });
+            }
             "R" if rest.is_empty() => {
                 let sock = match UdpSocket::bind(self.any_addr()) {
                     Ok(s) => s,
@@ -272,6 +284,12 @@ impl World {
                                 self.fails.push(format!("reported endpoint {:?} differs from from_listener {:?}", ep, built));
                             }
                             *ep
+                        }
+                        // a datagram from j was sent to this listener and a pump followed, yet no event carried
+                        // j's address: the reply goes to the address from_listener builds, and the case fails
+                        None if self.want_by.get(&(i, j)).map_or(false, |v| v.iter().any(|p| *p <= self.pumps_done)) => {
+                            self.fails.push(format!("no event from sender {} was reported to listener {} to reply to", j, i));
+                            built
                         }
                         None => return false,
                     }
@@ -677,6 +695,8 @@ const CORPUS: &[&str] = &[
     "udp e2e L L f0>1:10:1 f1>0:11:2 w r0>1:12:3 r1>0:13:4 w",
     // a library socket connected to a raw peer, both directions
     "udp e2e R C0 s1:20:1 s1:1472:2 s1:1473:3 w x0>1:30:4 x0>1:0:5 w",
+    // a sender on another loopback address, to a plain listener and to a connected socket's peer
+    "udp e2e L Q R x1>0:5:1 x2>0:6:2 w r0>1:7:3 r0>2:8:4 f0>1:9:5 w",
     // datagrams that reach a connected socket before its first poll event has been processed
     "udp e2e R c0 x0>1:10:1 x0>1:0:2 x0>1:65507:3 w s1:4:4 w",
     "udp e2e L c0 f0>1:7:1 f0>1:8:2 w s1:3:3 f0>1:9:4 w",
@@ -715,6 +735,7 @@ fn main() {
             if bcast {
                 // the receive_broadcasts listener (its own receive path): every size class, replies, IPv6
                 for c in [
+                    "udp e2e B Q R x1>0:5:1 x2>0:6:2 w r0>1:7:3 r0>2:8:4 f0>1:9:5 w",
                     "udp e2e B R C0 x1>0:5:1 s2:7:2 x1>0:0:3 w f0>1:3:3 f0>2:0:4 r0>1:65507:5 w x1>0:65507:6 w s2:65507:7 w s2:65508:8 w",
                     "udp e2e B R R x1>0:3:1 x2>0:3:2 x1>0:1473:3 x2>0:9000:4 w r0>1:5:7 r0>2:5:8 w",
                     "udp e2e v6 B R C0 x1>0:5:1 s2:65507:2 w x1>0:65520:3 w f0>1:65507:4 w",
